@@ -744,36 +744,10 @@ pub fn parse_prealloc_bound() {
     std::mem::forget(r);
 }
 
-/// The same for the counts declared in the BODY of the file: a header that declares only justice
-/// properties, then up to four tokens (justice sizes). Neither the number of justice properties
-/// nor the sizes read may drive an allocation. `parse()` is left through a second cut point after
-/// the justice-size loop (the rest of the function is out of reach of the solver).
-#[kani::proof]
-#[kani::stub(std::vec::Vec::reserve, alloc_stub::reserve)]
-#[kani::stub(std::vec::Vec::with_capacity, alloc_stub::with_capacity)]
-pub fn parse_prealloc_bound_justice() {
-    fuel(4);
-    unsafe {
-        st::CUT_AFTER_JUSTICE_SIZES = true;
-    }
-    let header = Header {
-        max_var_index: 0,
-        input_count: 0,
-        latch_count: 0,
-        output_count: 0,
-        and_gate_count: 0,
-        bad_state_property_count: 0,
-        invariant_constraint_count: 0,
-        justice_property_count: kani::any(),
-        fairness_constraint_count: 0,
-    };
-    let parser = verif_make_parser::<u64>(any_reader(), header);
-    let r = parser.parse();
-    unsafe {
-        kani::cover!(st::HF_N == 2 && st::NEWLINES_OK == 2, "two justice sizes read");
-    }
-    std::mem::forget(r);
-}
+// (The counts declared in the BODY (justice property sizes) are read deep inside `parse()`. A second
+// harness with a header declaring only justice properties and a second cut point after the
+// justice-size loop still ran out of memory (nested Vec growth and drop glue), so allocations
+// driven by body counts are outside the claim; the seeded change C05_3 is missed.)
 
 #[kani::proof]
 pub fn reach_ascii_t3() {
